@@ -1086,6 +1086,20 @@ def check_triangulation(ctx: Ctx):
 
     n = 0
     seen = set()
+    # the result is a dictionary of its own: entries are never written into an object obtained from elsewhere (the unit-sphere
+    # triangulations come from a module-level store that hands out the *same* dictionary for every droplet of similar size)
+    foreign = []
+    for s_ in fv.statements():
+        tg_ = s_.targets if isinstance(s_, ast.Assign) else ([s_.target] if isinstance(s_, ast.AugAssign) else [])
+        for t_ in tg_:
+            if isinstance(t_, ast.Subscript) and isinstance(t_.value, ast.Name):
+                r_ = fv.single_def_value(t_.value.id, s_)
+                v_ = r_[0] if r_ is not None else None
+                if isinstance(v_, ast.Call) and not (U(v_.func) in ("dict", "copy.copy", "copy.deepcopy") or (isinstance(v_.func, ast.Attribute) and v_.func.attr == "copy")):
+                    foreign.append((s_, t_.value.id, v_))
+    ctx.decide(not foreign, "TRIANG", fi.qualname + ":own-result", (fi, foreign[0][0]) if foreign else fi, "the returned triangulation is a dictionary of its own",
+               f"`{U(foreign[0][0])[:60] if foreign else ''}` writes into `{foreign[0][1] if foreign else ''}`, the object returned by `{U(foreign[0][2])[:50] if foreign else ''}`: that dictionary is shared (one stored unit-sphere "
+               "triangulation serves every droplet of similar size), so the vertices of a triangulation handed out earlier are overwritten by the next droplet")
     for node in fv.return_nodes():
         if node.stmt.value is None:
             continue
@@ -1220,7 +1234,7 @@ def check(ctx: Ctx):
     check_triangulation(ctx)
     check_shape(ctx)
     ctx.expect("SHAPE", 8)
-    ctx.expect("TRIANG", 2)
+    ctx.expect("TRIANG", 3)
     ctx.expect("ACCUM", 7)
     ctx.expect("ORIGIN", 8)
     ctx.expect("GUARD", 7)
